@@ -215,12 +215,81 @@ def gen_case(rnd):
     return {"shared_txt": shared_txt, "body": body, "shared": shared, "root": root, "msgs": msgs}
 
 
+# ------------------------------------------------------------------ reconfiguration at run time (XL cases)
+
+RANK = {"a": 0, "f": 1, "m": 2, "s": 3}
+TYPED = ["tA", "tF", "tM", "tS"]
+CLEARS = ["cA", "cF", "cM", "cS", "cc"]
+
+
+def gen_typed_ops(rnd, n):
+    return [(rnd.choice(TYPED), rnd.randint(0, 59)) if rnd.random() < 0.85 else (rnd.choice(CLEARS), 0) for _ in range(n)]
+
+
+def apply_typed(kids, op, k):
+    """rank-ordered list model of SortedPipeline (as in C17): attribute handlers, filters, at most one formatter, sinks"""
+    if op[0] == "t":
+        cls = op[1].lower()
+        if cls == "m":
+            kids[:] = [h for h in kids if h.kind != "m"]
+        pos = 0
+        for i, h in enumerate(kids):
+            if RANK[h.kind] <= RANK[cls]:
+                pos = i + 1
+        kids.insert(pos, Node(cls, k))
+    elif op == "cc":
+        kids[:] = []
+    else:
+        kids[:] = [h for h in kids if h.kind != op[1].lower()]
+
+
+def gen_late_case(rnd):
+    msgs = []
+    for i in range(rnd.randint(2, 8)):
+        attrs = [("user", uni_text(rnd, 5))] if rnd.random() < 0.2 else []
+        pre = rnd.choice(["", "PRE"]) if rnd.random() < 0.15 else None
+        m = {"type": rnd.randrange(5), "line": i, "file": b"f.cpp", "func": b"fn", "cat": b"c", "text": rnd.choice(["m%d" % i, "", uni_text(rnd, 6)]),
+             "attrs": attrs}
+        late = gen_typed_ops(rnd, rnd.choice([0, 0, 1, 1, 2, 3]))
+        msgs.append((m, pre, late))
+    init = gen_typed_ops(rnd, rnd.randint(0, 5))
+    if rnd.random() < 0.4:
+        init = [(op, k) for op, k in init if op in ("tF", "tS")]      # starts with filters and sinks only
+    return {"late": True, "zscoped": rnd.random() < 0.7, "init": init, "msgs": msgs}
+
+
+def late_line(i, c):
+    ops = lambda lst: " ".join("%s %d" % (op, k) for op, k in lst)
+    ms = " ".join("%s %s %d %s" % (enc_msg(m), "~" if pre is None else hexs(pre), len(late), ops(late)) for m, pre, late in c["msgs"])
+    return "XL %s %d %d %s %d %s" % (i, 1 if c["zscoped"] else 0, len(c["init"]), ops(c["init"]), len(c["msgs"]), ms)
+
+
+def late_reference(c):
+    z = Node("p", scoped=c["zscoped"])
+    for op, k in c["init"]:
+        apply_typed(z.kids, op, k)
+    root = Node("p", scoped=False, kids=[Node("a", 3), Node("s", 900), z, Node("s", 901)])
+    deliveries, finals = [], []
+    stats = {"rejects": 0, "scoped_changed": 0, "unscoped_changed": 0}
+    for i, (m, pre, late) in enumerate(c["msgs"]):
+        msg = Msg(i, m["type"], m["text"] or "", m["attrs"], pre)
+        r = process(root, msg, deliveries, stats)
+        finals.append((1 if r else 0, msg.fmt, attr_dump(msg.attrs)))
+        for op, k in late:
+            apply_typed(z.kids, op, k)
+    return deliveries, finals, stats
+
+
 def case_line(i, c):
+    if c.get("late"):
+        return late_line(i, c)
     ms = " ".join(enc_msg(m) + " " + ("~" if pre is None else hexs(pre)) for m, pre in c["msgs"])
     return "X %s %s %s %d %s" % (i, c["shared_txt"], c["body"], len(c["msgs"]), ms)
 
 
 def reference(c):
+    if c.get("late"):
+        return late_reference(c)
     shared_nodes = []
     for s in c["shared"]:
         shared_nodes.append(resolve(s, shared_nodes))
@@ -260,7 +329,7 @@ def run(ctx):
         ctx.seed, ctx.tier, only = rep["seed"], rep["tier"], rep["case"]["index"]
         ctx.quick = ctx.tier == "quick"
     rnd = random.Random(ctx.seed * 67867967 + 1)
-    cases = [gen_case(rnd) for _ in range(ctx.pick(4000, 300000))]
+    cases = [gen_late_case(rnd) if rnd.random() < 0.25 else gen_case(rnd) for _ in range(ctx.pick(5000, 300000))]
     if only is not None:
         cases = [cases[only]]      # regenerated deterministically from (seed, tier, index)
     lines = [case_line(i, c) for i, c in enumerate(cases)]
@@ -271,6 +340,7 @@ def run(ctx):
         if kind != "skipped":
             ctx.violation("C01:crash:" + kind, err[-800:], {"line": lines[int(cid)], "index": int(cid)})
     compared = 0
+    late_nontrivial = 0
     distinct = set()
     samples = []
     for i, c in enumerate(cases):
@@ -281,8 +351,8 @@ def run(ctx):
         compared += len(exp_d)
         if got_f != exp_f:
             j = next(k for k in range(len(exp_f)) if k >= len(got_f) or got_f[k] != exp_f[k])
-            ctx.violation("C01:final-state", "program %s %s: message %d final (ret, formatted, attrs) expected %r got %r"
-                          % (c["shared_txt"], c["body"], j, exp_f[j], got_f[j] if j < len(got_f) else None),
+            ctx.violation("C01:final-state", "program %s: message %d final (ret, formatted, attrs) expected %r got %r"
+                          % (lines[i][:300] if c.get("late") else c["shared_txt"] + " " + c["body"], j, exp_f[j], got_f[j] if j < len(got_f) else None),
                           {"line": lines[i], "index": i})
         if got_d != exp_d:
             j = next((k for k in range(min(len(exp_d), len(got_d))) if got_d[k] != exp_d[k]), min(len(exp_d), len(got_d)))
@@ -300,8 +370,13 @@ def run(ctx):
                 key = "C01:delivery-attributes"
             else:
                 key = "C01:delivery-raw"
-            ctx.violation(key, "program %s %s: delivery #%d (sink,msg,isFormatted,formatted,raw,attrs) expected %r got %r"
-                          % (c["shared_txt"], c["body"], j, e, g), {"line": lines[i], "index": i})
+            ctx.violation(key, "program %s: delivery #%d (sink,msg,isFormatted,formatted,raw,attrs) expected %r got %r"
+                          % (lines[i][:300] if c.get("late") else c["shared_txt"] + " " + c["body"], j, e, g), {"line": lines[i], "index": i})
+        if c.get("late"):
+            if stats["scoped_changed"] and any(late for _, _, late in c["msgs"][:-1]):
+                distinct.add(lines[i])
+                late_nontrivial += 1
+            continue
         d = depth_of(c["root"])
         if d >= 2 and stats["rejects"] and stats["scoped_changed"] and stats["unscoped_changed"]:
             distinct.add((c["shared_txt"], c["body"]))
@@ -314,11 +389,13 @@ def run(ctx):
         "rule": "random handler trees (depth <= 5, <= 40 nodes; scoped/unscoped pipelines built by append, operator<< and initializer "
                 "lists incl. null entries; attribute handlers, filters, formatters, sinks, generic handlers, LevelFilter, shared "
                 "stateful instances) and SimplePipeline fluent programs (pipeline()/end(), surplus end()) x 1..30 messages with "
-                "pre-set attributes / pre-formatted text; every sink delivery and the final message state compared with a reference "
+                "pre-set attributes / pre-formatted text; a quarter of the cases instead reconfigure a SimplePipeline through the typed "
+                "SortedPipeline calls before the first message and again between messages (run-time reconfiguration); every sink delivery and the final message state compared with a reference "
                 "evaluator; non-trivial = depth >= 2, a rejecting handler fired, and both a scoped and an unscoped pipeline changed "
                 "message state; distinct by program text",
         "samples": samples or [{"program": cases[0]["body"]}],
         "deliveries_compared": compared,
+        "reconfiguration_cases_nontrivial": late_nontrivial,
     }
     return ctx.finish(cov, ["formatters returning a null QString are not generated", "atom behaviour tables are shared by driver and reference"],
                       min_evals=1 if ctx.replay else 500)
